@@ -216,6 +216,10 @@ theorem stripSpec_breaks (m : Mode) (t : List Byte) :
   fun_induction stripSpec m t <;>
     first | (simp_all [isBreak]; done) | (simp only [List.filter_cons, *]; done)
 
+theorem stripSpec_no_slash (m : Mode) (t : List Byte) (hm : m = .normal ∨ m = .string) (h : 47 ∉ t) :
+    stripSpec m t = t := by
+  fun_induction stripSpec m t <;> simp_all
+
 theorem stripSpec_sublist (m : Mode) (t : List Byte) : (stripSpec m t).Sublist t := by
   fun_induction stripSpec m t <;> simp_all
 
